@@ -6,6 +6,7 @@ import Crusta.Proofs.Oracle
 import Crusta.Proofs.CliCompose
 import Crusta.Proofs.CliFile
 import Crusta.Proofs.CliApx
+import Crusta.Proofs.CliOut
 
 /-!
 # C05 — the command-line tools print exactly the right answer, or none (property theorems)
@@ -40,8 +41,8 @@ theorem splitHyphen_lower (s : Str) :
       rw [ih']
       cases splitHyphen cs <;> simp [lower]
 
-theorem queryOf_lower (s : Str) : queryOf (lower s) = queryOf s := by
-  unfold queryOf; rw [lower_idem]
+theorem queryOf_lower (s : Str) : Cli.queryOf (lower s) = Cli.queryOf s := by
+  unfold Cli.queryOf; rw [lower_idem]
 
 theorem semOf_lower (s : Str) : semOf (lower s) = semOf s := by
   unfold semOf; rw [lower_idem]
@@ -78,8 +79,8 @@ theorem splitHyphen_eq (s q sem : Str) (h : splitHyphen s = some (q, sem)) : s =
       obtain ⟨rfl, rfl⟩ := he
       rw [ih q' hp]; rfl
 
-theorem queryOf_some (q : Str) (t : Task) (h : queryOf q = some t) : lower q = taskLower t := by
-  unfold queryOf at h
+theorem queryOf_some (q : Str) (t : Task) (h : Cli.queryOf q = some t) : lower q = taskLower t := by
+  unfold Cli.queryOf at h
   simp only at h
   split at h
   · injection h with h; subst h; assumption
@@ -106,7 +107,7 @@ theorem problem_parse_iff (s : Str) : (readProblem s).isSome = true ↔ lower s 
       obtain ⟨q, sem⟩ := p
       rw [hs] at h
       simp only at h
-      cases hq : queryOf q with
+      cases hq : Cli.queryOf q with
       | none => rw [hq] at h; cases h
       | some t =>
         cases hm : semOf sem with
@@ -268,7 +269,7 @@ theorem grammar_is_the_source :
     allSems.map (fun σ => (semLower σ, semName σ)) = Gen.semanticsArms ∧
     allTasks.map (fun t => (taskLower t, taskName t)) = Gen.queryArms ∧
     (∀ s σ, semOf s = some σ ↔ (lower s, semName σ) ∈ Gen.semanticsArms) ∧
-    (∀ s t, queryOf s = some t ↔ (lower s, taskName t) ∈ Gen.queryArms) := by
+    (∀ s t, Cli.queryOf s = some t ↔ (lower s, taskName t) ∈ Gen.queryArms) := by
   have h3 : allSems.map (fun σ => (semLower σ, semName σ)) = Gen.semanticsArms := by decide
   have h4 : allTasks.map (fun t => (taskLower t, taskName t)) = Gen.queryArms := by decide
   refine ⟨by decide, by decide, h3, h4, ?_, ?_⟩
@@ -292,7 +293,7 @@ theorem grammar_is_the_source :
       cases t <;> decide
     · intro h
       simp only [allTasks, List.map, List.mem_cons, Prod.mk.injEq, List.mem_nil_iff, or_false] at h
-      unfold queryOf
+      unfold Cli.queryOf
       cases t <;> simp_all [taskName, taskLower] <;> decide
 
 def kindName : SolverKind → String
@@ -355,5 +356,53 @@ theorem wrapper_is_the_source (args : List String) :
   refine ⟨_, _, _, rfl, ?_⟩
   unfold wrapperArgs
   simp [Gen.wrapperCommonArgs, Gen.wrapperSpecialInvocation, Gen.wrapperSolveTail]
+
+/-! ### the text on stdout
+
+`stdoutIccma` / `stdoutApx` (`Model/CliOut.lean`) are the bytes `execute_with_reader_and_writer` prints
+for an answer (status line, extension line of the writer); `parseStdoutIccma` / `parseStdoutApx` are
+what a reader of that text sees (`Shown`: status and printed set as argument ids), and `ShownOK` says,
+in terms of the shown text and the declared graph only, what the property promises.  The model's
+stdout bytes are compared with the real binary's on every run (cli family). -/
+
+/-- **from the bytes of the file to the bytes on stdout (ICCMA format)**: for every accepted file,
+problem string, `--encoding` value, certificate flag and argument, on sound SAT replies the run does
+not panic, and what it prints parses to a status / set that is right for the declared graph: SE — `NO`
+only if no extension exists, otherwise an extension listed without repetition; DC / DS — the status
+is the truth, a set is printed exactly when a certificate was requested and the status is YES (DC) /
+NO (DS), and it is an extension (for DC-PR a complete one) containing / omitting the argument -/
+theorem cli_stdout_on_readable_file (bs : List UInt8) (fw : IO.IccmaFw) (hfile : IO.readIccma bs = .ok fw)
+    (s : Str) (t : Task) (σ : Sem) (hread : readProblem s = some (t, σ))
+    (enc : Option String) (cfg : Cfg)
+    (henc : ∀ k, dispatchEncoder σ enc (decide (s = s_SEPR)) = some k → cfg.enc = k)
+    (cert : Bool) (argStr : Str) (a : Nat) (harg : t ≠ .SE → IO.iccmaArgOfStr fw.n argStr = some a)
+    (w : World) (hb : w.Bounded)
+    (hfuel : cfg.fuel ≥ fuelFor (1 + (Store.ofIccma fw.n fw.atts).view.maxId.getD 0)) :
+    ∃ p, entryProg (dispatchSolver t σ) cfg (Store.ofIccma fw.n fw.atts).view (entryOf t cert [a]) = some p ∧
+      wp False p w (fun ans _ => ∃ sh, parseStdoutIccma t (stdoutIccma ans) = some sh ∧
+        ShownOK t σ (Store.ofIccma fw.n fw.atts).g cert a sh) :=
+  Cli.cli_stdout_on_readable_file bs fw hfile s t σ hread enc cfg henc cert argStr a harg w hb hfuel
+
+/-- the same for the Aspartix format (labels of the file instead of numbers) -/
+theorem cli_stdout_on_readable_apx_file (bs : List UInt8) (fw : IO.ApxFw) (hfile : IO.readApx bs = .ok fw)
+    (s : Str) (t : Task) (σ : Sem) (hread : readProblem s = some (t, σ))
+    (enc : Option String) (cfg : Cfg)
+    (henc : ∀ k, dispatchEncoder σ enc (decide (s = s_SEPR)) = some k → cfg.enc = k)
+    (cert : Bool) (argStr : Str) (a : Nat) (harg : t ≠ .SE → IO.idxOf fw.labels argStr = some a)
+    (w : World) (hb : w.Bounded)
+    (hfuel : cfg.fuel ≥ fuelFor (1 + (apxStore fw).view.maxId.getD 0)) :
+    ∃ p, entryProg (dispatchSolver t σ) cfg (apxStore fw).view (entryOf t cert [a]) = some p ∧
+      wp False p w (fun ans _ => ∃ sh, parseStdoutApx fw.labels t (stdoutApx fw.labels ans) = some sh ∧
+        ShownOK t σ (apxStore fw).g cert a sh) :=
+  Cli.cli_stdout_on_readable_apx_file bs fw hfile s t σ hread enc cfg henc cert argStr a harg w hb hfuel
+
+/-- the printed text determines the answer: stdout of an answer of the right shape parses back to it -/
+theorem stdout_parses_back (t : Task) (ans : Ans) (hs : shapeOk t ans = true) :
+    parseStdoutIccma t (stdoutIccma ans) = some (shownOf ans) := parseStdoutIccma_stdoutIccma t ans hs
+
+/-- two runs that both satisfy the promise show the same status, whatever the certificate flag -/
+theorem shown_status_unique {t : Task} {σ : Sem} {g : G} {c1 c2 : Bool} {a : Nat} {sh1 sh2 : Shown}
+    (h1 : ShownOK t σ g c1 a sh1) (h2 : ShownOK t σ g c2 a sh2) : sh1.status = sh2.status :=
+  shownOK_status_unique h1 h2
 
 end Crusta.C05
